@@ -551,7 +551,8 @@ impl Oracle for RepeatOracle {
                         }
                     }
                 }
-            } else if plain && s.bytes[1] != refapp::FUNC_CONFIRM && !is_repeat {
+            } else if !(s.bytes.len() >= 2 && s.bytes[1] == refapp::FUNC_CONFIRM) && !(is_repeat && plain) {
+                // anything else in between (another request, a broadcast, another master, something malformed) is not modelled
                 self.recorded_at = None;
             }
         }
